@@ -317,8 +317,9 @@ def run_shard(rec, tier, seed, shard, nshards):
                     th_ = gen.random_sparse_combo_theta(rng, sp.n_unique_samples, max(1, sp.n_unique_treatments), scale=float(rng.choice([0.3, 1.0])))
                     if near_replicates:
                         # samples that are replicates of one another up to the tenth digit (the same line plated twice)
-                        th_.W[:] = th_.W[0] + eps_ * rng.normal(size=th_.W.shape)
-                        th_.W0[:] = th_.W0[0] + eps_ * rng.normal(size=th_.W0.shape)
+                        # (the blocks may sit in read-only containers: assign new arrays instead of writing in place)
+                        th_.W = th_.W[0] + eps_ * rng.normal(size=th_.W.shape)
+                        th_.W0 = th_.W0[0] + eps_ * rng.normal(size=th_.W0.shape)
                     holder.add_theta(th_)
                 w = {"arity": arity, "mapping_rows": int(len(screen.treatment_mapping[0])), "samples": int(sp.n_unique_samples), "T": T}
                 # calculate_mse
